@@ -71,7 +71,10 @@ def tail_case(draw):
     fmax_idx = draw(st.integers(j0 + nb, nf - 1))
     return {"method": method, "nb": nb, "j0": j0, "f": [float(x) for x in f], "layout": lay, "shape": shape,
             "fmax": float(f[fmax_idx]), "c": [draw(log_uniform(1e-6, 3e-4)) for _ in range(n)],
-            "theta": [draw(st.one_of(fl(0.0, 360.0), st.sampled_from([0.0, 90.0, 180.0, 270.0, 359.999]))) for _ in range(n)],
+            "theta": [draw(st.one_of(fl(0.0, 360.0), st.sampled_from([0.0, 90.0, 180.0, 270.0, 359.999, 360.0]))) for _ in range(n)],
+            # axis-aligned waves either with exact zeros in the moments or with the rounding residue of cos / sin
+            # (0.5 sin(2 pi) = -1.2e-16 is what once produced a direction of exactly 360.0, finding F26)
+            "exact_axis": draw(st.booleans()),
             "r1": [draw(fl(0.2, 0.95)) for _ in range(n)], "seed": draw(st.integers(0, 2 ** 31)),
             "nan_pre_tail": method == "peak" and draw(st.booleans()),
             "convention": draw(st.sampled_from(["going_to_counter_clockwise_east", "coming_from_clockwise_north"])),
@@ -104,7 +107,7 @@ def build_tail(c, scale=1.0):
         ang = np.where(inside, th, rng.uniform(-np.pi, np.pi, nf))
         a1[i] = c["r1"][i] * np.cos(ang)
         b1[i] = c["r1"][i] * np.sin(ang)
-        if c["theta"][i] % 90.0 == 0.0:
+        if c.get("exact_axis") and c["theta"][i] % 90.0 == 0.0:
             # waves exactly along an axis: the moments hold exact zeros (a1 == 0 for 90 / 270 degrees), so the direction
             # is exactly a multiple of 90 and the conventions are exercised on their branch points
             ex = {0.0: (1.0, 0.0), 90.0: (0.0, 1.0), 180.0: (-1.0, 0.0), 270.0: (0.0, -1.0)}[c["theta"][i] % 360.0]
